@@ -11,6 +11,7 @@ import (
 	"testing"
 
 	ct "github.com/google/certificate-transparency-go"
+	"github.com/google/certificate-transparency-go/client"
 
 	"verif/harness/lib"
 	"verif/harness/tlsgen"
@@ -130,10 +131,17 @@ func keyName(k *logKey) string {
 	return k.name
 }
 
-func caseGetSTH(t *testing.T, key *logKey, usePEM bool, v variant) lib.Case {
+// caseGetSTH: one GetSTH call, on a fresh client (sess == nil) or as the next call of a session
+func caseGetSTH(t *testing.T, sess *session, key *logKey, usePEM bool, v variant) lib.Case {
 	bodies := newBodyTable()
 	sc := &script{items: finish(append([]wireItem{}, v.items...), bodies)}
-	lc := newClient(sc, key, usePEM)
+	var lc *client.LogClient
+	if sess != nil {
+		sess.use(sc)
+		lc, key = sess.lc, sess.key
+	} else {
+		lc = newClient(sc, key, usePEM)
+	}
 	var sth *ct.SignedTreeHead
 	var err error
 	pan, pv := bubble(t, sc, func(ctx context.Context) { sth, err = lc.GetSTH(ctx) })
@@ -192,11 +200,20 @@ func caseGetSTH(t *testing.T, key *logKey, usePEM bool, v variant) lib.Case {
 	} else if !ok {
 		note = "get-sth: " + note + " (" + v.name + ")"
 	}
+	if !ok {
+		note += sess.after()
+	}
+	in := map[string]interface{}{"method": "GetSTH", "key": keyName(key), "response": v.name, "script": sc.items, "attempts": atts, "signature": sigClass}
+	htags := sess.tags()
+	if sess != nil {
+		in["history"] = sess.history()
+		sess.did("get-sth "+v.name+" (signature "+sigClass+")", obs.Class)
+	}
 	return lib.Case{
 		Coq:    fmt.Sprintf("CGetSTH %s %s %s", cfgCoq(key, valid), coqAttempt(att, jsonCoq), obsCoq),
-		Input:  map[string]interface{}{"method": "GetSTH", "key": keyName(key), "response": v.name, "script": sc.items, "attempts": atts, "signature": sigClass},
+		Input:  in,
 		Impl:   obs,
 		PropOK: ok, Note: note,
-		Tags: []string{"method:GetSTH", "get-sth:" + v.name, "key:" + keyName(key), "result:" + obs.Class, "sth-signature:" + keyName(key) + ":" + sigClass + ":" + obs.Class},
+		Tags: append([]string{"method:GetSTH", "get-sth:" + v.name, "key:" + keyName(key), "result:" + obs.Class, "sth-signature:" + keyName(key) + ":" + sigClass + ":" + obs.Class}, htags...),
 	}
 }
